@@ -33,7 +33,47 @@ func init() {
 var c09Tail = []string{"-z", "--zz", "-a", "--aa", "-o", "v", "x", "-", "--", "--out=v", "-o=v", "-ab", "---", "", "-1", "p", "q", "--zz=v", "-é", "é", "--", "+x", "-%", "%s", "-5", "--=", "-\t",
 	"-a-token-longer-than-sixty-four-bytes-0123456789-0123456789-0123456789-0123456789"}
 
+// c09Long: very long lines of positionals (around the 1024-token mark): inserting -- at the start, in the middle or at the
+// very end must not change anything
+func c09Long(c *core.Ctx) {
+	x := &ArgDecl{Name: "X", Multi: true}
+	a := &OptDecl{Names: []string{"a"}, Flag: true}
+	p := &Prog{Opts: []*OptDecl{a}, Args: []*ArgDecl{x}}
+	p.AST = &Node{K: KSeq, Kids: []*Node{{K: KOptional, Kids: []*Node{{K: KOpt, Opt: a, Name: "-a"}}}, {K: KRep, Kids: []*Node{{K: KArg, Arg: x}}}}}
+	p.Spec = p.AST.String()
+	n := []int{1000, 1023, 1024, 1025, 1100}[c.R.Intn(5)]
+	argv := make([]string, 0, n+2)
+	if c.R.Intn(2) == 0 {
+		argv = append(argv, "-a")
+	}
+	for i := 0; i < n; i++ {
+		argv = append(argv, "w")
+	}
+	app := drive.Single(p)
+	c.Journal(CaseDesc{Decl: DeclStr(p), Spec: p.Spec, Note: fmt.Sprintf("%d positional tokens", n)})
+	base := drive.OutcomeKey(p, drive.Run(app, argv))
+	c.LibDone()
+	c.Eval()
+	for _, ins := range []int{len(argv) - n, len(argv) - n/2, len(argv)} {
+		a2 := append(append(append([]string{}, argv[:ins]...), "--"), argv[ins:]...)
+		c.Journal(CaseDesc{Decl: DeclStr(p), Spec: p.Spec, Note: fmt.Sprintf("%d positional tokens, -- inserted at %d", n, ins)})
+		got := drive.OutcomeKey(p, drive.Run(app, a2))
+		c.LibDone()
+		c.Eval()
+		c.Nontrivial("L", fmt.Sprint(n, ins, len(argv)))
+		if got != base {
+			c.Violation(fmt.Sprintf("a line of %d positionals: inserting -- at %d changed the outcome", n, ins), map[string]interface{}{"without": truncateStr(base, 200), "with": truncateStr(got, 200)}, nil)
+			return
+		}
+		c.Inc("L_long_line_pairs")
+	}
+}
+
 func runC09(c *core.Ctx) {
+	if c.Index%2000 == 1999 {
+		c09Long(c)
+		return
+	}
 	switch c.Index % 4 {
 	case 0, 1:
 		c09Transparency(c)
@@ -148,7 +188,13 @@ func c09SpecLevel(c *core.Ctx) {
 	full := *head
 	x, y := head.Args[0], head.Args[len(head.Args)-1]
 	var tailSpec *Node
-	switch pi % 4 {
+	switch pi % 6 {
+	case 4:
+		// (X | (-- Y)) X... : the spec-level -- sits in one branch of a choice that rejoins on a repeated argument
+		tailSpec = &Node{K: KSeq, Kids: []*Node{{K: KChoice, Kids: []*Node{{K: KArg, Arg: x}, {K: KGroup, Kids: []*Node{{K: KSeq, Kids: []*Node{{K: KDD}, {K: KArg, Arg: y}}}}}}}, {K: KRep, Kids: []*Node{{K: KArg, Arg: x}}}}}
+	case 5:
+		// [-- Y] X...
+		tailSpec = &Node{K: KSeq, Kids: []*Node{{K: KOptional, Kids: []*Node{{K: KSeq, Kids: []*Node{{K: KDD}, {K: KArg, Arg: y}}}}}, {K: KRep, Kids: []*Node{{K: KArg, Arg: x}}}}}
 	case 0:
 		tailSpec = &Node{K: KSeq, Kids: []*Node{{K: KDD}, {K: KRep, Kids: []*Node{{K: KArg, Arg: x}}}}}
 	case 1:
